@@ -209,12 +209,19 @@ def iname(n):
 
 
 def render_verilog(N, rng, positional_prob=0.2):
+    global CONST_STYLE
+    CONST_STYLE = rng
     lines = []
-    cmt = lambda: rng.choice(['', '', ' // a comment', ' /* block\n comment */', ' (* keep = 1 *)'])
+    cmt = lambda: rng.choice(['', '', ' // a comment', ' /* block\n comment */', ' (* keep = 1 *)', ' /* banner **/', ' /** doc **/', ' /* a * b / c */', ' /***/'])
     decl = []
     for name, d, rg in N.ports:
         r = f'[{rg[0]}:{rg[1]}] ' if rg else ''
+        w = rng.random()
+        if w < 0.15:
+            decl.append(f'wire {r}{vname(name)};')           # a port may also be declared as a wire, before ...
         decl.append(f'{d} {r}{vname(name)};{cmt()}')
+        if 0.15 <= w < 0.3:
+            decl.append(f'wire {r}{vname(name)};')           # ... or after its direction declaration
     # group some scalar wires into one declaration
     ws = list(N.wires)
     rng.shuffle(ws)
@@ -232,7 +239,7 @@ def render_verilog(N, rng, positional_prob=0.2):
                 if rng.random() < 0.5:
                     conn.append(f'.{p}()')
                 continue
-            conn.append(f'.{p}({vname(s) if not s.startswith("1\'b") else s})')
+            conn.append(f'.{p}({vname(s) if not s.startswith("1\'b") else vs(s)})')
         rng.shuffle(conn)
         body.append(f'{ct} {iname(inst)} ({", ".join(conn)});{cmt()}')
     # assigns: sometimes merged into a concatenation
@@ -241,7 +248,12 @@ def render_verilog(N, rng, positional_prob=0.2):
         if len(asg) >= 2 and rng.random() < 0.4:
             (t1, s1), (t2, s2) = asg[0], asg[1]
             asg = asg[2:]
-            body.append('assign {' + vs(t1) + ', ' + vs(t2) + '} = {' + vs(s1) + ', ' + vs(s2) + '};')
+            if s1.startswith("1'b") and s2.startswith("1'b") and rng.random() < 0.7:
+                v = int(s1[3]) * 2 + int(s2[3])             # a 2-bit sized constant, MSB first
+                src = rng.choice([f"2'b{s1[3]}{s2[3]}", f"2'd{v}", f"2'h{v}"])
+            else:
+                src = '{' + vs(s1) + ', ' + vs(s2) + '}'
+            body.append('assign {' + vs(t1) + ', ' + vs(t2) + '} = ' + src + ';')
         else:
             (t, s), asg = asg[0], asg[1:]
             body.append(f'assign {vs(t)} = {vs(s)};')
@@ -256,8 +268,14 @@ def render_verilog(N, rng, positional_prob=0.2):
     return f'// generated\nmodule {N.name} ({plist});\n  ' + '\n  '.join(stmts) + '\nendmodule\n'
 
 
+CONST_STYLE = None
+
+
 def vs(bit):
     if bit.startswith("1'b"):
+        if CONST_STYLE is not None:
+            v = bit[3]
+            return CONST_STYLE.choice([bit, f"1'h{v}", f"1'd{v}", f"1'B{v}", f"1'H{v}"])
         return bit
     m = re.fullmatch(r'([A-Za-z_][A-Za-z0-9_]*)\[(\d+)\]', bit)
     if m:
